@@ -26,7 +26,9 @@ pub fn run(ctx: &Ctx) -> Report {
     let mut rep = Report::new("C24", "exploration");
     let seed = ctx.seed;
     let spaces = vec![TreeSpace::new(ctx.pick(5, 6), &atoms_t(&a4())), TreeSpace::new(ctx.pick(4, 5), &atoms_t(&a6())),
-        TreeSpace::new(ctx.pick(3, 4), &atoms_t(&[vec![], vec![0x41; 40], vec![0x00, 0x01], vec![0x04, 0, 0, 0], vec![0x03, 0xff, 0xff, 0xff]]))];
+        TreeSpace::new(ctx.pick(3, 4), &atoms_t(&[vec![], vec![0x41; 40], vec![0x00, 0x01], vec![0x04, 0, 0, 0], vec![0x03, 0xff, 0xff, 0xff]])),
+        // integer aliases: different byte strings that denote the same integer (nil/00/0000, 01/0001, ff/ffff) must stay distinct atoms
+        TreeSpace::new(ctx.pick(3, 4), &atoms_t(&[vec![], vec![0x00], vec![0x00, 0x00], vec![0x01], vec![0x00, 0x01], vec![0xff], vec![0xff, 0xff]]))];
     for (si, ts) in spaces.iter().enumerate() {
         let acc = par_for(ctx, ts.total, 64, |i| format!("space{si} tree#{i}"), |i, acc| {
             thread_local! { static A: std::cell::RefCell<Allocator> = std::cell::RefCell::new(Allocator::new()); }
@@ -112,6 +114,6 @@ pub fn run(ctx: &Ctx) -> Report {
     rep.states = rep.acc.get("cases");
     rep.transitions = rep.evaluations;
     rep.traces = rep.acc.get("cases");
-    rep.rule = format!("every tree of TREES({},A4), TREES({},A6) and TREES({}, boundary atoms incl. non-canonical and 2^26) in 3 sharing modes x 4 atom representations (inline, heap, view, and mixed within one tree); oracle: same serialization, same tree hash (independent SHA-256), atoms pairwise byte-distinct and equal to the set of distinct atom values, pairs pairwise distinct as (left,right) and as sub-trees and equal to the set of distinct sub-trees, counts <= source; intern_tree_limited for every heap limit 0..=need+1. Non-trivial = cases where interning actually merged nodes.", ctx.pick(5, 6), ctx.pick(4, 5), ctx.pick(3, 4));
+    rep.rule = format!("every tree of TREES({},A4), TREES({},A6) , TREES({}, boundary atoms incl. non-canonical and 2^26) and TREES(3|4, integer aliases nil/00/0000, 01/0001, ff/ffff) in 3 sharing modes x 4 atom representations (inline, heap, view, and mixed within one tree); oracle: same serialization, same tree hash (independent SHA-256), atoms pairwise byte-distinct and equal to the set of distinct atom values, pairs pairwise distinct as (left,right) and as sub-trees and equal to the set of distinct sub-trees, counts <= source; intern_tree_limited for every heap limit 0..=need+1. Non-trivial = cases where interning actually merged nodes.", ctx.pick(5, 6), ctx.pick(4, 5), ctx.pick(3, 4));
     rep
 }
